@@ -108,6 +108,21 @@ T['flat_st_byte'] = "flat_store_byte v[15:16], v20\n s_waitcnt vmcnt(0)"
 T['flat_st_short'] = off(2, 'v15', 'v16') + " flat_store_short v[17:18], v21\n s_waitcnt vmcnt(0)"
 T['flat_st_dword_ld'] = "flat_store_dword v[15:16], v21\n s_waitcnt vmcnt(0)\n flat_load_dword v22, v[15:16]\n s_waitcnt vmcnt(0)"
 T['flat_st_x2'] = "v_lshlrev_b32 v24, 2, v3\n v_add_u32 v17, vcc, s14, v24\n v_mov_b32 v18, s15\n v_addc_u32 v18, vcc, 0, v18, vcc\n flat_store_dwordx2 v[17:18], v[20:21]\n s_waitcnt vmcnt(0)"
+# wide accesses with a 16-byte stride per work-item whose bytes straddle a cache line off-centre (lane 3: 48+12 = 60 -> 4+12 split; +4: lane 3 at 52 -> 12+4)
+def wide(k, base_lo='s14', base_hi='s15'):
+    return f"""
+  v_sub_u32 v24, vcc, v15, s14
+  v_lshlrev_b32 v24, 2, v24
+  v_add_u32 v24, vcc, {k}, v24
+  v_add_u32 v17, vcc, {base_lo}, v24
+  v_mov_b32 v18, {base_hi}
+  v_addc_u32 v18, vcc, 0, v18, vcc
+"""
+T['flat_st_x4_cross12'] = wide(12) + " flat_store_dwordx4 v[17:18], v[20:23]\n s_waitcnt vmcnt(0)"
+T['flat_st_x4_cross4'] = wide(4) + " flat_store_dwordx4 v[17:18], v[20:23]\n s_waitcnt vmcnt(0)"
+T['flat_st_x2_cross'] = wide(12) + " flat_store_dwordx2 v[17:18], v[20:21]\n s_waitcnt vmcnt(0)"
+T['flat_ld_x4_cross12'] = wide(12, 's8', 's9') + " flat_load_dwordx4 v[24:27], v[17:18]\n s_waitcnt vmcnt(0)\n v_xor_b32 v22, v24, v27\n v_xor_b32 v23, v25, v26"
+T['flat_ld_x2_cross'] = wide(12, 's10', 's11') + " flat_load_dwordx2 v[22:23], v[17:18]\n s_waitcnt vmcnt(0)"
 T['flat_st_partial_exec'] = "s_mov_b64 s[24:25], exec\n s_mov_b64 exec, 0xaaaaaaaa\n flat_store_dword v[15:16], v20\n s_waitcnt vmcnt(0)\n s_mov_b64 exec, s[24:25]"
 T['flat_two_outstanding'] = "flat_load_dword v22, v[9:10]\n flat_load_dword v23, v[11:12]\n s_waitcnt vmcnt(1)\n v_add_u32 v20, vcc, v22, v20\n s_waitcnt vmcnt(0)\n v_add_u32 v21, vcc, v23, v21"
 
